@@ -1,17 +1,31 @@
 """C17 — concurrent chain use neither deadlocks nor exposes uncommitted state.
 
-(M1) Locks.tla: the lock protocol of every public Chain operation is RECORDED from the real code
-     (cfg(grin_verif) traced RwLock + LMDB writer events) and TLC checks that no interleaving of
-     three concurrent calls deadlocks under parking_lot's fair RwLock semantics.
-(M2) ChainConc.tla: Chain.tla's stages run as the critical sections the code really has; TLC checks
-     the chain invariants (readers only ever see committed, replay-consistent states; head monotone
-     and stored) under every interleaving of small programs.
-(B)  Real threads (3 writers delivering TLC-generated block trees + 2 readers) with seeded schedule
-     perturbation; the lock log is linearised by the sequence numbers taken inside the critical
-     sections and validated against ChainConc.tla by TLC (sections, call results, every reader
-     observation, final state); watchdog for deadlocks; panics are data.
+(M1) Locks.tla: the lock protocol of every public Chain operation and branch (block / header processing incl. orphan
+     and reorg deliveries, readers, validate_tx with and without an NRD kernel, merkle proofs, template building,
+     fast and full validation, the segmenter and its four segment kinds, the zip archive, compaction, the owner API's
+     resets, the desegmenter, and the network adapter's locate_headers / find_common_header, which hold one of the
+     chain's lock handles) is RECORDED from the real code (cfg(grin_verif) traced RwLock + LMDB writer events), cut
+     into sections (maximal stretches during which the thread holds some lock) and TLC checks that no interleaving of
+     three concurrent sections deadlocks under parking_lot's fair RwLock semantics.  Sections observed per call in
+     the multi-threaded runs of (B) that were not recorded join the same model.  A source scan makes the list
+     checkable: a public lock-taking function without a recorded protocol is a tool error.
+     ViewsOK: every operation whose result is ONE view of the chain state holds the locks of that view together (and
+     takes each once).  GuardedOK: the live txhashset files are copied into the state archive only while the
+     txhashset lock is held (needs the hook events of hooks/conc.patch; vacuous without them).
+(M2) ChainConc.tla: Chain.tla's stages run as the critical sections the code really has; TLC checks the chain
+     invariants (readers only ever see committed, replay-consistent states; head monotone and stored; the bounded
+     orphan pool with its eviction) under every interleaving of small programs.
+(B)  Real threads (3 writers delivering TLC-generated block trees + readers of the UTXO set, the head, the header
+     MMR (get_header_by_height, get_header_for_output), validate_tx + a template builder) with seeded schedule
+     perturbation; the lock log is linearised by the sequence numbers taken inside the critical sections and
+     validated against ChainConc.tla by TLC (sections, call results, every reader observation, final state).  Two
+     further profiles run through the same trace spec: an orphan flood (more orphan candidates than the pool holds,
+     so that the eviction branch runs under threads) and a long chain (85-block trunk, reorganisations near the
+     head) on which a fourth thread runs Chain::compact() for real.  Watchdog for deadlocks (writers and readers);
+     panics are data.
 """
-import json, os, subprocess
+import json, os, re, subprocess, time
+import concurrent.futures as cf
 import vlib, chainlib, conclib
 from vlib import Report, ToolError
 
@@ -24,6 +38,7 @@ def BIN():
 
 
 def record_protocols(wd):
+    """Returns (calls: op -> whole normalised protocol, panics, not_ok: ops whose call did not take the intended branch)."""
     p = subprocess.run([BIN(), "protocols", "--work", os.path.join(wd, "proto")], stdout=subprocess.PIPE,
                        stderr=subprocess.PIPE, text=True, timeout=900)
     if p.returncode != 0:
@@ -39,10 +54,12 @@ def record_protocols(wd):
         if a not in others:
             others[a] = "o%d" % (len(others) + 1)
         return others[a]
-    protos, panics = {}, []
+    protos, panics, not_ok = {}, [], []
     for c in o["calls"]:
         if c["panic"]:
             panics.append(c["op"])
+        if c.get("ok") is False:
+            not_ok.append(c["op"])
         seq = []
         for e in o["events"]:
             if c["s0"] < e[0] < c["s1"]:
@@ -52,31 +69,14 @@ def record_protocols(wd):
                     seq.append(["m_acq", "db"])
                 elif e[2] == "lmdb_commit":
                     seq.append(["m_rel", "db"])
-        # a batch that is dropped without commit releases the writer before the chain locks are released
-        out, held = [], False
-        for op, l in seq:
-            if op == "m_acq":
-                held = True
-            if op == "m_rel":
-                held = False
-            if held and op in ("r_rel", "w_rel") and l in ("tx", "hp"):
-                out.append(["m_rel", "db"])
-                held = False
-            out.append([op, l])
-        if held:
-            out.append(["m_rel", "db"])
-        # keep a leaf lock (acquired and released with nothing acquired in between) out of the model
-        keep, i = [], 0
-        while i < len(out):
-            op, l = out[i]
-            if l.startswith("o") and op in ("r_acq", "w_acq") and i + 1 < len(out) and out[i + 1][1] == l \
-                    and out[i + 1][0] in ("r_rel", "w_rel"):
-                i += 2
-                continue
-            keep.append([op, l])
-            i += 1
-        protos[c["op"]] = keep
-    return protos, panics
+                elif e[2] == "txfiles_use_begin":      # hook events (hooks/conc.patch), if the tree has them
+                    seq.append(["use_beg", "txfiles"])
+                elif e[2] == "txfiles_use_end":
+                    seq.append(["use_end", "txfiles"])
+        protos[c["op"]] = conclib.normalise(seq)
+    if not o.get("compacted"):
+        not_ok.append("compact")
+    return protos, panics, not_ok
 
 
 def make_scenarios(behs, nthreads=3):
@@ -86,8 +86,46 @@ def make_scenarios(behs, nthreads=3):
         if len(ops) < 4:
             continue
         threads = {str(t + 1): ops[t::nthreads] for t in range(nthreads)}
-        scen.append({"trunk": b["trunk"], "pool": b.get("pool", {}), "tree": b["tree"], "threads": threads, "readers": 3})
+        scen.append({"trunk": b["trunk"], "pool": b.get("pool", {}), "tree": b["tree"], "threads": threads, "readers": 4})
     return scen
+
+
+def compaction_scenarios(behs, nthreads=3):
+    """Long-trunk trees (85 blocks, forks and reorganisations within the last 8) of the compaction profile of
+    MC_Chain: the deliveries go to three writer threads, a fourth thread calls Chain::compact(), which is due."""
+    scen = []
+    for b in behs:
+        ops = [{"k": s["k"], "b": s["b"]} for s in b["steps"] if s["k"] in ("ProcessBlock", "ProcessHeader")]
+        if len(ops) < 3:
+            continue
+        threads = {str(t + 1): ops[t::nthreads] for t in range(nthreads)}
+        threads[str(nthreads + 1)] = [{"k": "Compact", "b": 0}]
+        scen.append({"profile": "compact", "trunk": b["trunk"], "pool": b.get("pool", {}), "tree": b["tree"], "threads": threads,
+                     "readers": 4, "reader_cap": 300})
+    return scen
+
+
+def flood_scenario(nbogus, seed, max_orphans=200):
+    """More orphan candidates than the pool holds: trunk 1..2, honest blocks 3, 4, then a line of `nbogus` blocks with
+    valid headers and invalid bodies (harness profile "flood": header variants, no proof building).  Thread 1 first
+    announces every header, then three threads deliver the line from the far end (all of them end in the orphan
+    pool, which overflows and evicts), a fourth delivers 4 and 3 (4 waits in the pool, 3 connects both)."""
+    tx = {"ins": [], "outs": [], "lock": 0}
+    tree = [{"parent": 0, "height": 0, "diff": 1, "tx": tx, "flag": "ok"}]
+    for i in range(1, 5):
+        tree.append({"parent": i - 1, "height": i, "diff": 1, "tx": tx, "flag": "ok"})
+    last = 4 + nbogus
+    for i in range(5, last + 1):
+        tree.append({"parent": i - 1, "height": i, "diff": 1, "tx": tx, "flag": "badRoot"})
+    hdrs = [{"k": "ProcessHeader", "b": b} for b in range(3, last + 1)]
+    line = list(range(last, 4, -1))
+    rot = seed % 3
+    parts = [line[(rot + j) % 3::3] for j in range(3)]
+    pb = lambda bs: [{"k": "ProcessBlock", "b": b} for b in bs]
+    threads = {"1": hdrs + pb(parts[0]), "2": pb(parts[1]), "3": pb(parts[2]), "4": pb([4, 3])}
+    gate = [1, len(hdrs)]
+    return {"profile": "flood", "trunk": 2, "pool": {}, "tree": tree, "threads": threads, "readers": 4,
+            "max_orphans": max_orphans, "reader_cap": 300, "start_after": {"2": gate, "3": gate, "4": gate}}
 
 
 def run_real(wd, scen, seed, delay_us=0, tag="run"):
@@ -111,26 +149,38 @@ def validate_trace(wd, case, out, idx, rep, tag):
     json.dump(conclib.scenario_json(case), open(sp, "w"))
     vlib.write_ndjson(tp, evs)
     r = vlib.tlc("trace/ChainConcTrace", workers=1, coverage=False, env={"TRACE": tp, "SCEN": sp}, deque=True,
-                 xss="512m", timeout=900)
+                 xss="512m", timeout=900, xmx="3g")
     if r.finished:
         return True, stats, len(evs), None
-    line = [x for x in r.out.splitlines() if "TRACE-REJECTED" in x]
-    if not line:
+    lines = r.out.splitlines()
+    at = [i for i, x in enumerate(lines) if "TRACE-REJECTED" in x]
+    if not at:
         print(r.out[-2500:])
         raise ToolError("ChainConcTrace failed without a verdict")
-    return False, stats, len(evs), line[0]
+    # the rejected event is printed as a (possibly multi-line) record after the marker
+    why = " ".join(x.strip() for x in lines[at[0]:at[0] + 60])
+    return False, stats, len(evs), why
+
+
+STAT_KEYS = ("sections", "reads", "heads", "heads_ambiguous", "vtx", "scans", "hdr_at", "hdr_of", "read_errors")
+EVENT_KINDS = ("Final", "Scan", "VTx", "Read", "HdrAt", "HdrOf", "Head", "End")
 
 
 def check_outputs(rep, scen, outs, wd, tag, validate=True):
-    st = {"runs": 0, "sections": 0, "reads": 0, "heads": 0, "heads_ambiguous": 0, "vtx": 0, "scans": 0, "events": 0, "accepted": 0, "stranded": 0}
+    st = {"runs": 0, "events": 0, "accepted": 0, "stranded": 0}
+    st.update({k: 0 for k in STAT_KEYS})
+    todo = []
     for i, (case, out) in enumerate(zip(scen, outs)):
         st["runs"] += 1
         rc = {"case": case, "tag": tag, "index": i}
+        prof = ":" + case["profile"] if case.get("profile") else ""
         if out.get("deadlock"):
-            rep.violation("conc:deadlock", dict(rc, tail=out.get("tail")), "writers did not finish within the watchdog (90 s)")
+            who = out.get("who", "writers")
+            rep.violation("conc:deadlock%s%s" % (prof, "" if who == "writers" else ":" + who), dict(rc, tail=out.get("tail")),
+                          "%s did not finish within the watchdog" % who)
             continue
         if out.get("panics"):
-            rep.violation("conc:panic", rc, "%d call(s) panicked" % out["panics"])
+            rep.violation("conc:panic" + prof, rc, "%d call(s) panicked" % out["panics"])
         for c in out["calls"]:
             if c.get("k") == "HeadWentBack":
                 rep.violation("conc:reader:head_work_decreased", dict(rc, obs=c), "a reader saw the head's total difficulty decrease")
@@ -138,8 +188,12 @@ def check_outputs(rep, scen, outs, wd, tag, validate=True):
                 rep.violation("conc:reader:head_not_stored", dict(rc, obs=c), "a reported head names a block that is not stored")
             if c.get("k") == "Head" and "err" in c:
                 rep.violation("conc:reader:head_error", dict(rc, obs=c), c["err"][:100])
+            if c.get("k") == "GetUnspent" and c.get("val", 0) < -1:
+                rep.violation("conc:reader:get_unspent_error", dict(rc, obs=c), "get_unspent returned an error while blocks were being processed")
+            if c.get("k") in ("HdrAt", "HdrOf") and c.get("id") == -2:
+                rep.violation("conc:reader:header_unknown", dict(rc, obs=c), "a header-MMR reader returned a header that was never delivered")
         if out["final"]["validate"] != "Ok(())":
-            rep.violation("conc:final:validate", rc, out["final"]["validate"][:200])
+            rep.violation("conc:final:validate" + prof, rc, out["final"]["validate"][:200])
         # a valid block left in the orphan pool although its parent body is stored: no sequential order
         # of the same calls ends like that
         tree = case["tree"]
@@ -149,17 +203,173 @@ def check_outputs(rep, scen, outs, wd, tag, validate=True):
                 st["stranded"] += 1
                 rep.violation("conc:orphan_stranded:parent_accepted_before_insertion", dict(rc, orphan=o, final=out["final"]),
                               "block %d stays in the orphan pool although its parent body is stored" % o)
+        if len(out["final"]["orph"]) > case.get("max_orphans", 200):
+            rep.violation("conc:orphan_pool:over_capacity", dict(rc, final=out["final"]), "%d blocks in the orphan pool" % len(out["final"]["orph"]))
         if validate:
-            ok, s, n, why = validate_trace(wd, case, out, i, rep, tag)
-            for k in ("sections", "reads", "heads", "heads_ambiguous", "vtx", "scans"):
-                st[k] += s[k]
+            todo.append((i, case, out, rc))
+    if todo:
+        # one TLC process per trace (each has its own tree constant), a few at a time
+        with cf.ThreadPoolExecutor(max_workers=4) as ex:
+            res = list(ex.map(lambda x: validate_trace(wd, x[1], x[2], x[0], rep, tag), todo))
+        for (i, case, out, rc), (ok, s, n, why) in zip(todo, res):
+            for k in STAT_KEYS:
+                st[k] += s.get(k, 0)
             st["events"] += n
             if ok:
                 st["accepted"] += 1
             else:
-                kind = "Final" if '"Final"' in why else "Scan" if '"Scan"' in why else "VTx" if '"VTx"' in why else "Read" if '"Read"' in why else "Head" if '"Head"' in why else "End" if '"End"' in why else "Sec"
-                rep.violation("conc:trace:rejected:%s" % kind, dict(rc, rejected=why[:600]), why[:300])
+                m = re.search(r'k \|-> "(\w+)"', why)
+                kind = m.group(1) if m else ("eof" if '"eof"' in why else "unknown")
+                prof = ":" + case["profile"] if case.get("profile") else ""
+                rep.violation("conc:trace:rejected:%s%s" % (kind, prof), dict(rc, rejected=why[:600]), why[:300])
     return st
+
+
+# lock-taking public functions that have no recorded protocol, with the reason (everything else must be recorded)
+NOT_RECORDED = {
+    "txhashset_write": "zip state sync, receiving side: needs a second node; alternative to PIBD in the sync state machine",
+    "validate_complete_state": "PIBD receiving side with a complete set of segments (a second node)",
+    "finalize_bitmap": "PIBD receiving side with cached segments", "apply_output_segments": "PIBD receiving side with cached segments",
+    "apply_rangeproof_segments": "PIBD receiving side with cached segments", "apply_kernel_segments": "PIBD receiving side with cached segments",
+}
+
+
+def op_to_fn(op):
+    if op.startswith("process_block_") and op != "process_block_header":
+        return "process_block"
+    if op.startswith("validate_tx"):
+        return "validate_tx"
+    if op in ("validate_fast", "validate_full"):
+        return "validate"
+    if op.startswith("segment_"):
+        return op[len("segment_"):] + "_segment"
+    if op.startswith("deseg_"):
+        return op[len("deseg_"):]
+    return op
+
+
+def unrecorded_lock_takers(protos):
+    """Public functions of Chain / Segmenter / Desegmenter whose body (or a method of the same type they call)
+    takes one of the chain's locks or opens a batch, and for which `h_conc protocols` records nothing."""
+    pat = re.compile(r"self\.(header_pmmr|txhashset|pibd_segmenter|pibd_desegmenter)\.(read|write)\(\)|self\.orphans\.(add|remove_by_height)"
+                     r"|\.store\.batch\(\)|header_pmmr\.(read|write)\(\)|txhashset\.(read|write)\(\)")
+    recorded = {op_to_fn(op) for op in protos}
+    missing = {}
+    for rel in ("chain/src/chain.rs", "chain/src/txhashset/segmenter.rs", "chain/src/txhashset/desegmenter.rs"):
+        try:
+            src = open(os.path.join(vlib.REPO, rel)).read()
+        except OSError:
+            continue
+        fns = {}
+        for m in re.finditer(r"\n\t(pub )?fn (\w+)", src):
+            i = src.find("{", m.end())
+            d, j = 0, i
+            while j < len(src):
+                if src[j] == "{":
+                    d += 1
+                elif src[j] == "}":
+                    d -= 1
+                    if d == 0:
+                        break
+                j += 1
+            fns[m.group(2)] = (bool(m.group(1)), src[i:j + 1])
+        reach = {n for n, (_, b) in fns.items() if pat.search(b)}
+        grew = True
+        while grew:
+            grew = False
+            for n, (_, b) in fns.items():
+                if n not in reach and any(re.search(r"self\.%s\(" % x, b) for x in reach):
+                    reach.add(n)
+                    grew = True
+        # a function reached through a recorded one is covered by that recording
+        covered = set(recorded)
+        grew = True
+        while grew:
+            grew = False
+            for n in list(covered):
+                if n in fns:
+                    for x in reach:
+                        if x not in covered and re.search(r"self\.%s\(" % x, fns[n][1]):
+                            covered.add(x)
+                            grew = True
+        for n in sorted(reach):
+            if fns[n][0] and n not in covered:
+                missing[n] = rel
+    return missing
+
+
+def lock_model(rep, wd, protos, extra_sections, thorough):
+    """Sections of all recorded calls (+ sections observed in the threaded runs) -> TLC."""
+    owners = {}
+    for op, full in sorted(protos.items()):
+        for sec in conclib.sections(full):
+            owners.setdefault(json.dumps(sec), []).append(op)
+    guarded_uses = sum(1 for full in protos.values() for o, _ in full if o == "use_beg")
+    for key, who in sorted(extra_sections.items()):
+        owners.setdefault(key, []).extend(w for w in who if w not in owners.get(key, []))
+    keys = sorted(owners)
+    plist = [[{"op": o, "lock": l} for o, l in json.loads(k)] for k in keys]
+    pnames = ["+".join(dict.fromkeys(owners[k])) for k in keys]
+    views = [{"op": op, "proto": [{"op": o, "lock": l} for o, l in full]} for op, full in sorted(protos.items())]
+    pp, vp = os.path.join(wd, "protos.json"), os.path.join(wd, "views.json")
+    json.dump(plist, open(pp, "w"))
+    json.dump(views, open(vp, "w"))
+    r1 = vlib.tlc("mc/MC_Locks", "mc/MC_Locks_t" if thorough else "mc/MC_Locks", workers=4, coverage=False,
+                  env={"PROTOS": pp, "VIEWS": vp}, timeout=3000, xmx="8g")
+    replay = {"protocols": {k: v for k, v in protos.items() if v}, "sections": dict(zip(pnames, plist))}
+    if "ViewsRecorded" in r1.invariant_violated:
+        print(r1.out[-1500:])
+        raise ToolError("Locks.tla: an operation of the view table has no recorded protocol")
+    if "GuardedOK" in r1.invariant_violated:
+        for op, res in sorted(set(re.findall(r'"UNGUARDED-USE", "(\w+)", "(\w+)"', r1.out))) or [("?", "?")]:
+            rep.violation("locks:unguarded_use:%s:%s" % (res, op), dict(replay, op=op, protocol=protos.get(op)),
+                          "%s uses %s while it does not hold the lock(s) guarding it: %s"
+                          % (op, res, " ".join("%s:%s" % (a, b) for a, b in protos.get(op, []))))
+        r1 = vlib.tlc("mc/MC_Locks", "mc/MC_Locks_nv", workers=4, coverage=False, env={"PROTOS": pp, "VIEWS": vp}, timeout=3000, xmx="8g")
+    if "ViewsOK" in r1.invariant_violated:
+        ops = sorted(set(re.findall(r'"VIEW-SPLIT", "(\w+)"', r1.out))) or ["?"]
+        for op in ops:
+            rep.violation("locks:view_split:%s" % op, dict(replay, op=op, protocol=protos.get(op)),
+                          "%s does not hold the locks of its view together / takes one of them more than once: %s"
+                          % (op, " ".join("%s:%s" % (a, b) for a, b in protos.get(op, []))))
+        # TLC stops at the first violated invariant: look at the deadlock clause on its own
+        r1 = vlib.tlc("mc/MC_Locks", "mc/MC_Locks_nv", workers=4, coverage=False, env={"PROTOS": pp, "VIEWS": vp}, timeout=3000, xmx="8g")
+    if "NoDeadlock" in r1.invariant_violated:
+        rep.violation(conclib.deadlock_signature(dict(zip(pnames, [json.loads(k) for k in keys]))), dict(replay, tlc=r1.out[-3000:]),
+                      "the recorded lock protocols admit a deadlock under fair RwLock semantics")
+    elif not r1.finished and not r1.invariant_violated:
+        print(r1.out[-3000:])
+        raise ToolError("MC_Locks did not complete")
+    return r1, plist, pnames, guarded_uses
+
+
+def chainconc_models():
+    mcs = []
+    for cfg in ["mc/MC_ChainConc_A", "mc/MC_ChainConc_B", "mc/MC_ChainConc_evict"]:
+        r = vlib.tlc("mc/MC_ChainConc", cfg, workers=3, coverage=False, timeout=1800)
+        if r.invariant_violated or r.property_violated or not r.finished:
+            print(r.out[-3000:])
+            raise ToolError("ChainConc.tla violates its safety invariants in the model (%s)" % cfg)
+        mcs.append({"config": cfg, "distinct_states": r.distinct, "states_generated": r.generated})
+    # check_orphan's decision and its orphan-pool insertion are separate steps in the model; with the
+    # re-check after the insertion no block may be left stranded: FinalSequential under every interleaving
+    rr = vlib.tlc("mc/MC_ChainConc", "mc/MC_ChainConc_race", workers=3, coverage=False, timeout=900)
+    if rr.invariant_violated or not rr.finished:
+        print(rr.out[-2500:])
+        raise ToolError("ChainConc.tla violates FinalSequential in the model")
+    mcs.append({"config": "mc/MC_ChainConc_race", "distinct_states": rr.distinct, "states_generated": rr.generated})
+    return mcs
+
+
+def hfo_probe(wd):
+    """Single-threaded directed probe, EVIDENCE ONLY (an observation outside the listed properties, DESIGN 9.3):
+    get_header_for_output while the header head is on another fork than the body head looks the output's height
+    up in the header MMR and answers with the other fork's header.  C17 speaks about concurrency; the trace
+    spec models the lookup as coded and decides only that both parts of the view come from one committed state."""
+    p = subprocess.run([BIN(), "hfo", "--work", os.path.join(wd, "hfo")], stdout=subprocess.PIPE, stderr=subprocess.PIPE, text=True, timeout=600)
+    if p.returncode != 0 or not p.stdout.strip():
+        return {"error": "probe failed to run"}
+    return json.loads(p.stdout.strip().splitlines()[-1])
 
 
 def run(tier, replay):
@@ -168,99 +378,167 @@ def run(tier, replay):
     thorough = tier == "thorough"
     if replay:
         obj = json.load(open(replay))
-        case = obj["case"]["case"]
-        outs = run_real(wd, [case], vlib.seed(), tag="replay")
-        check_outputs(rep, [case], outs, wd, "replay")
+        inner = obj.get("case") or {}
+        if isinstance(inner.get("case"), dict):
+            case = inner["case"]
+            outs = run_real(wd, [case], vlib.seed(), delay_us=40000 if inner.get("tag") == "delay" else 0, tag="replay")
+            check_outputs(rep, [case], outs, wd, "replay")
+        else:
+            protos, ppanics, _ = record_protocols(wd)
+            for op in ppanics:
+                rep.violation("conc:panic:%s" % op, {"op": op}, "single-threaded call panicked")
+            lock_model(rep, wd, protos, {}, False)
         rep.coverage = {"states": 1, "transitions": 1, "traces_validated_against_impl": 1, "samples": [obj["signature"]]}
         return rep.finish()
 
-    # (M1) recorded lock protocols -> TLC deadlock check
-    protos, ppanics = record_protocols(wd)
-    for op in ppanics:
-        rep.violation("conc:panic:%s" % op, {"op": op}, "single-threaded call panicked")
-    # identical protocols of different operations are one protocol of the lock model
-    distinct = {}
-    for k, v in sorted(protos.items()):
-        if v:
-            distinct.setdefault(json.dumps(v), []).append(k)
-    plist = [[{"op": o, "lock": l} for o, l in json.loads(key)] for key in distinct]
-    pnames = ["+".join(v) for v in distinct.values()]
-    pp = os.path.join(wd, "protos.json")
-    json.dump(plist, open(pp, "w"))
-    r1 = vlib.tlc("mc/MC_Locks", "mc/MC_Locks_t" if thorough else "mc/MC_Locks", workers=6, coverage=False,
-                  env={"PROTOS": pp}, timeout=3000, xmx="8g")
-    if "NoDeadlock" in r1.invariant_violated:
-        rep.violation("locks:deadlock:model", {"protocols": dict(zip(pnames, plist)), "tlc": r1.out[-3000:]},
-                      "the recorded lock protocols admit a deadlock under fair RwLock semantics")
-    elif not r1.finished:
-        print(r1.out[-3000:])
-        raise ToolError("MC_Locks did not complete")
+    t0 = time.time()
+    tm = {}
+    pool = cf.ThreadPoolExecutor(max_workers=6)
+    # independent preparations side by side: protocol recording (one harness process), behaviour generation
+    # (TLC simulation), the ChainConc models (TLC)
+    f_protos = pool.submit(record_protocols, wd)
+    n = 120 if thorough else 14
+    f_behs = pool.submit(chainlib.gen_sim, "mc/MC_Chain_simemit", n * 2, vlib.seed(), 4, 60, 1500)
+    f_mcs = pool.submit(chainconc_models)
+    # (M1) recorded lock protocols -> TLC deadlock check, as soon as they are recorded
+    f_locks = pool.submit(lambda: lock_model(rep, wd, f_protos.result()[0], {}, thorough))
+    # compaction under threads: its own harness process, next to the main runs
+    nc = 6 if thorough else 1
 
-    # (M2) chain invariants under every interleaving of the real critical sections
-    mcs = []
-    for cfg in ["mc/MC_ChainConc_A", "mc/MC_ChainConc_B"]:
-        r = vlib.tlc("mc/MC_ChainConc", cfg, workers=6, coverage=False, timeout=1800)
-        if r.invariant_violated or r.property_violated or not r.finished:
-            print(r.out[-3000:])
-            raise ToolError("ChainConc.tla violates its safety invariants in the model (%s)" % cfg)
-        mcs.append({"config": cfg, "distinct_states": r.distinct, "states_generated": r.generated})
-
-    # check_orphan's decision and its orphan-pool insertion are separate steps in the model; with the
-    # re-check after the insertion no block may be left stranded: FinalSequential under every interleaving
-    rr = vlib.tlc("mc/MC_ChainConc", "mc/MC_ChainConc_race", workers=4, coverage=False, timeout=900)
-    if rr.invariant_violated or not rr.finished:
-        print(rr.out[-2500:])
-        raise ToolError("ChainConc.tla violates FinalSequential in the model")
-    # ... and the directed schedule that exposed the window on the real code (slow pool insertion of the
-    # child while the parent is accepted by another thread) must not strand the child
-    race_runs = []
-    for i in range(3 if thorough else 1):
-        p = subprocess.run([BIN(), "race", "--work", os.path.join(wd, "race"), "--delay-us", str(600000 + 150000 * i)],
-                           stdout=subprocess.PIPE, stderr=subprocess.PIPE, text=True, timeout=600)
-        if p.returncode != 0 or not p.stdout.strip():
-            print(p.stdout[-1000:], p.stderr[-1000:])
-            raise ToolError("race probe failed to run")
-        o = json.loads(p.stdout.strip().splitlines()[-1])
-        race_runs.append(o)
-        if o.get("stranded"):
-            rep.violation("conc:orphan_stranded:parent_accepted_before_insertion", {"probe": "race", "outcome": o},
-                          "directed schedule: the child stays in the orphan pool although its parent body is stored (head %s)" % o.get("head_height"))
+    def compaction_runs():
+        cb, _ = chainlib.gen_sim("mc/MC_Chain_simemit_compact", nc * 2, vlib.seed(), 2, 60, 1500)
+        sc = compaction_scenarios(cb)[:nc]
+        return sc, (run_real(wd, sc, vlib.seed(), tag="compact") if sc else [])
+    f_comp = pool.submit(compaction_runs)
 
     # (B) real threads, TLC-generated trees and delivery multisets
-    n = 120 if thorough else 14
-    behs, _ = chainlib.gen_sim("mc/MC_Chain_simemit", n * 2, vlib.seed(), workers=4, timeout=1500)
+    behs, _ = f_behs.result()
+    tm["gen"] = round(time.time() - t0, 1)
     scen = make_scenarios(behs)[:n]
     if len(scen) < 4:
         raise ToolError("too few scenarios")
-    outs = run_real(wd, scen, vlib.seed())
-    st = check_outputs(rep, scen, outs, wd, "run")
-    # anti-vacuity: a corrupted observation must be rejected by the trace spec
+    # ... and the orphan flood: more candidates than the pool holds (thorough: two more, one at the exact capacity)
+    floods = [flood_scenario(210, vlib.seed())] + ([flood_scenario(201, vlib.seed() + 1), flood_scenario(260, vlib.seed() + 2)] if thorough else [])
+    scen_all = scen + floods
+    outs = run_real(wd, scen_all, vlib.seed())
+    tm["run"] = round(time.time() - t0, 1)
+
+    # directed schedules (harness processes, next to the trace validations): slow orphan-pool insertion in the
+    # generated scenarios; the schedule that exposed the insertion window on the real code (slow pool insertion of
+    # the child while the parent is accepted by another thread) must not strand the child; the evidence-only probe
+    def directed():
+        o2 = run_real(wd, scen[: (40 if thorough else 6)], vlib.seed() + 1, delay_us=40000, tag="delay")
+        rr = []
+        for i in range(3 if thorough else 1):
+            p = subprocess.run([BIN(), "race", "--work", os.path.join(wd, "race"), "--delay-us", str(600000 + 150000 * i)],
+                               stdout=subprocess.PIPE, stderr=subprocess.PIPE, text=True, timeout=600)
+            if p.returncode != 0 or not p.stdout.strip():
+                print(p.stdout[-1000:], p.stderr[-1000:])
+                raise ToolError("race probe failed to run")
+            rr.append(json.loads(p.stdout.strip().splitlines()[-1]))
+        return o2, rr, hfo_probe(wd)
+    f_directed = pool.submit(directed)
+
+    scen_c, outs_c = f_comp.result()
+    if not scen_c:
+        raise ToolError("no compaction scenario generated")
+    tm["compact_run"] = round(time.time() - t0, 1)
+    # sections observed per call under threads (named chain locks and the LMDB writer) join the lock model
+    observed = {}
+    for case, out in zip(scen_all + scen_c, outs + outs_c):
+        if out.get("deadlock"):
+            continue
+        for kind, secs in conclib.observed_sections(out).items():
+            for sec in secs:
+                who = observed.setdefault(json.dumps(sec), [])
+                if "B:" + kind not in who:
+                    who.append("B:" + kind)
+
+    protos, ppanics, not_ok = f_protos.result()
+    for op in ppanics:
+        rep.violation("conc:panic:%s" % op, {"op": op}, "single-threaded call panicked")
+    if not_ok:
+        raise ToolError("protocol recording: these calls did not take the branch they are meant to record: %s" % not_ok)
+    unrec = unrecorded_lock_takers(protos)
+    unknown = sorted(x for x in unrec if x not in NOT_RECORDED)
+    if unknown:
+        raise ToolError("public functions that take chain locks but have no recorded lock protocol (extend `h_conc protocols`): %s" % unknown)
+    # every acquisition order observed per call under threads must be one of the recorded sections; one that is
+    # not joins the lock model (second TLC run, only then)
+    recorded_secs = {json.dumps(sec) for full in protos.values() for sec in conclib.sections(full)}
+    new_in_b = sorted(k for k in observed if k not in recorded_secs)
+    f_locks2 = pool.submit(lock_model, rep, wd, protos, {k: observed[k] for k in new_in_b}, thorough) if new_in_b else None
+
+    st = check_outputs(rep, scen_all + scen_c, outs + outs_c, wd, "run")
+    # (evidence) how many of the compaction scenarios really compacted: the Compact call has a write section
+    st["compactions_with_a_section"] = sum(
+        1 for c, o in zip(scen_c, outs_c) if not o.get("deadlock") and any(
+            e.get("k") == "Sec" and e.get("t") == len(c["threads"]) for e in conclib.linearise(c, o)[0]))
+    tm["traces"] = round(time.time() - t0, 1)
+    # anti-vacuity: corrupted observations must be rejected by the trace spec
+    selftests = 0
     if not rep.violations and not rep.known_hit:
-        bad = json.loads(json.dumps(outs[0]))
-        for c in bad["calls"]:
-            if c.get("k") == "ProcessBlock" and c["res"] in ("ok_head", "ok_fork"):
+        def corrupt(kind, f):
+            bad = json.loads(json.dumps(outs[0]))
+            for c in bad["calls"]:
+                if c.get("k") == kind and f(c):
+                    return bad
+            return None
+        def c_res(c):
+            if c["res"] in ("ok_head", "ok_fork"):
                 c["res"] = "reject"
-                break
-        ok, _, _, _ = validate_trace(wd, scen[0], bad, 0, rep, "selftest")
-        if ok:
-            raise ToolError("self-test: a corrupted call result was accepted by ChainConcTrace")
-    # directed schedule for the orphan-pool insertion window (slow orphan insertion)
-    outs2 = run_real(wd, scen[: (40 if thorough else 6)], vlib.seed() + 1, delay_us=40000, tag="delay")
+                return True
+        def c_hdr(c):
+            c["id"] = 0 if c["id"] != 0 else 1
+            return True
+        bads = [b for b in (corrupt("ProcessBlock", c_res), corrupt("HdrAt", c_hdr), corrupt("HdrOf", c_hdr)) if b]
+        if not thorough:
+            bads = [bads[vlib.seed() % len(bads)]]
+        with cf.ThreadPoolExecutor(max_workers=3) as ex:
+            res = list(ex.map(lambda x: validate_trace(wd, scen[0], x[1], x[0], rep, "selftest"), list(enumerate(bads))))
+        for ok, _, _, _ in res:
+            selftests += 1
+            if ok:
+                raise ToolError("self-test: a corrupted observation was accepted by ChainConcTrace")
+    # every kind of observation must have been made (else the corresponding trace action was never exercised)
+    empty = [k for k in ("sections", "reads", "heads", "vtx", "scans", "hdr_at", "hdr_of") if st[k] == 0]
+    if empty and not rep.violations:
+        raise ToolError("no observation of kind(s) %s in %d runs" % (empty, st["runs"]))
+    outs2, race_runs, hfo = f_directed.result()
     st2 = check_outputs(rep, scen[: len(outs2)], outs2, wd, "delay", validate=False)
+    for o in race_runs:
+        if o.get("stranded"):
+            rep.violation("conc:orphan_stranded:parent_accepted_before_insertion", {"probe": "race", "outcome": o},
+                          "directed schedule: the child stays in the orphan pool although its parent body is stored (head %s)" % o.get("head_height"))
+    tm["directed"] = round(time.time() - t0, 1)
+
+    r1, plist, pnames, guarded_uses = f_locks.result()
+    if f_locks2 is not None:
+        r1, plist, pnames, guarded_uses = f_locks2.result()
+    mcs = f_mcs.result()
+    tm["models"] = round(time.time() - t0, 1)
+    pool.shutdown()
 
     rep.coverage = {
         "states": r1.distinct + sum(m["distinct_states"] for m in mcs),
         "transitions": r1.generated + sum(m["states_generated"] for m in mcs),
         "traces_validated_against_impl": st["accepted"],
-        "samples": [{"protocol_process_block_next": protos.get("process_block_next"), "protocol_validate_tx": protos.get("validate_tx")},
+        "samples": [{"protocol_process_block_next": protos.get("process_block_next"), "protocol_validate_tx_nrd": protos.get("validate_tx_nrd")},
                     {"scenario_threads": scen[0]["threads"], "final": outs[0].get("final")}],
-        "lock_protocols_recorded": len(plist), "lock_model": {"distinct_states": r1.distinct, "threads": 3},
-        "chainconc_models": mcs, "directed_orphan_race_probe": race_runs,
-        "real_runs": st, "directed_delay_runs": st2,
-        "operations_with_protocols": pnames,
+        "operations_recorded": len(protos), "lock_sections_distinct": len(plist),
+        "lock_taking_public_functions_not_recorded": {n: NOT_RECORDED[n] for n in sorted(unrec)},
+        "lock_model": {"distinct_states": r1.distinct, "threads": 3},
+        "guarded_resource_spans_recorded": guarded_uses,     # 0 = the tree has no txfiles hook (hooks/conc.patch): GuardedOK is vacuous
+        "sections_observed_under_threads": len(observed), "sections_observed_but_not_recorded": [json.loads(k) for k in new_in_b],
+        "chainconc_models": mcs, "directed_orphan_race_probe": race_runs, "observations_outside_the_properties": {"get_header_for_output_with_header_head_on_other_fork": hfo},
+        "real_runs": st, "compaction_scenarios": len(scen_c), "directed_delay_runs": st2, "orphan_flood": [{"blocks": len(f["tree"]), "final_pool": len(o["final"]["orph"]) if not o.get("deadlock") else None}
+                                                                      for f, o in zip(floods, outs[len(scen):])],
+        "trace_selftests_rejected": selftests,
+        "sections_by_operation": pnames, "phase_seconds": tm,
     }
     rep.assumptions = ["schedules are those produced by seeded perturbation at lock points plus one directed delay; no claim of exhaustive interleaving of the real code",
                        "parking_lot RwLock modelled as fair (readers block while a writer waits)",
-                       "lock protocols are recorded from one call per operation on a 9-block chain (data-dependent variants beyond those are not in the lock model)",
+                       "lock protocols are recorded from one call per operation and branch on an 84-block chain, plus the per-call sections observed in the threaded runs (other data-dependent variants are not in the lock model)",
+                       "desegmenter operations are recorded on a desegmenter without cached segments; txhashset_write (zip state sync, receiving side) is outside the lock model; of the network adapter only locate_headers / find_common_header (the holders of a chain lock handle) are recorded, through their extracted source text",
                        "SKIP_POW, AutomatedTesting; NoopAdapter"]
     return rep.finish()
